@@ -23,6 +23,11 @@ C08 line protocol.  One line = one whole case:
   node     <K><items>  K in D L T S F; items separated by `,`; dict items are `<atom>=<obj>`;
            node ids are the positions of the node tokens, starting at 0
 
+           E~<enter>~<exit> = remap(root, visit=prog, enter=<enter>, exit=<exit>, reraise_visit=False) on a
+               tree (no container referenced twice), custom callbacks from the table-defined families
+               enter: dflt skipKind:<K> rev skipKey:<atom> asList depthLimit:<n>
+               exit:  dflt count keys pathLen keyOld oldKind
+               output `G=<generic loop> R=<generic recursion>`, label-free text of the result
 Output: `H=<heap level loop> [M=<heap level memoised recursion>] T=<tree machine> R=<tree recursion>`
 (M only for remap; T and R are `-` unless tree = 1).
   remap:    rebuilt value; containers `<K>#<label>[items]`, a repeated reference `^<label>`,
@@ -330,6 +335,43 @@ def researchLine (rootQ : Bool) (pr : Prog) (reraise tree : Bool) (h : Heap) (ro
     else ("-", "-")
   s!"H={hpart} T={tpart} R={rpart}"
 
+/-! custom enter / exit callbacks (mode `E~<enter>~<exit>`; tree level) -/
+
+def parseEnter? (cs : List Char) : Option EnterP :=
+  let (name, arg) := nameArg cs
+  match name with
+  | "dflt" => some .dflt
+  | "skipKind" => match arg with
+    | [c] => (parseKind? c).map EnterP.skipKind
+    | _ => none
+  | "rev" => some .rev
+  | "skipKey" => (parseAtom? arg).map EnterP.skipKey
+  | "asList" => some .asList
+  | "depthLimit" => (String.ofList arg).toNat?.map EnterP.depthLimit
+  | _ => none
+
+def parseExit? (cs : List Char) : Option ExitP :=
+  match String.ofList cs with
+  | "dflt" => some .dflt
+  | "count" => some .count
+  | "keys" => some .keys
+  | "pathLen" => some .pathLen
+  | "keyOld" => some .keyOld
+  | "oldKind" => some .oldKind
+  | _ => none
+
+def gresS : Option GRes → String
+  | none => "!fuel"
+  | some .typeError => "!TypeError"
+  | some (.ok v) => showV v
+
+def customLine (e : EnterP) (pr : Prog) (x : ExitP) (h : Heap) (root : Obj) : String :=
+  match unfold h (h.length + 1) root with
+  | none => "!unfold"
+  | some v =>
+    let c := progCfg e pr x
+    s!"G={gresS (gRemapIter c (2 * vsize v + 8) v)} R={gresS (gRoot c (vsize v + 2) v)}"
+
 def parseFlag? : String → Option Bool
   | "0" => some false
   | "1" => some true
@@ -347,6 +389,13 @@ def handle (line : String) : String :=
         if mode = "M" then remapLine pr rr tr h root
         else if mode = "Q" then researchLine true pr rr tr h root
         else if mode = "Qn" then researchLine false pr rr tr h root
+        else if mode.startsWith "E~" then
+          match splitChars '~' mode.toList with
+          | [_, e, x] =>
+            match parseEnter? e, parseExit? x with
+            | some e, some x => customLine e pr x h root
+            | _, _ => "bad-op"
+          | _ => "bad-op"
         else "bad-op"
     | _, _, _, _, _ => "bad-op"
   | _ => "bad-op"
